@@ -45,6 +45,12 @@ theorem good_getPage {s : State} (g : Good s) (nid pgno : Nat) (subno : Int) (ma
   obtain ⟨a, b, c, d⟩ := getPage_all h hz nid pgno subno mask
   exact ⟨a, b, by rw [d]; omega⟩
 
+theorem good_lookupExact {s : State} (g : Good s) (nid pgno : Nat) (subno : Int) :
+    Good (s.lookupExact nid pgno subno).1 := by
+  obtain ⟨h, hz, hm⟩ := g
+  obtain ⟨a, b, c, d⟩ := lookupExact_all h hz nid pgno subno
+  exact ⟨a, b, by rw [d]; omega⟩
+
 theorem good_pageRef {s : State} (g : Good s) (id : Nat) : Good (s.pageRef id) := by
   obtain ⟨h, hz, hm⟩ := g
   obtain ⟨a, b, c, d⟩ := pageRef_all h hz id
@@ -85,7 +91,7 @@ theorem good_walkLoop (nid : Nat) (dir : Int) (stop : Nat) :
       · split
         · exact g1
         · exact g1
-        · exact ih _ _ _ _ _ _ (good_getPage g1 _ _ _ _)
+        · exact ih _ _ _ _ _ _ (good_lookupExact g1 _ _ _)
 
 theorem good_foreach {s : State} (g : Good s) (nid pgno subno : Nat) (dir : Int) (stop fuel : Nat) :
     Good (s.foreachPage nid pgno subno dir stop fuel).1 := by
